@@ -40,6 +40,7 @@ type ClientOp struct {
 	cfgAtInvoke  raft.Configuration
 	inst         *sim.Instance
 	orphaned     bool // the server crashed while the call was in flight: outcome unknown
+	prevIndex    uint64 // membership calls: the prevIndex named (0: none)
 	flagged      bool
 }
 
@@ -570,6 +571,12 @@ func (r *Runner) doMembership(in *sim.Instance, kind string, target int, prev ui
 	tid := r.ids[target]
 	srv := r.W.Servers[tid]
 	op := r.newOp(kind, in, 0, fmt.Sprintf("%s prev=%d", tid, prev))
+	r.W.Mu.Lock()
+	op.prevIndex = prev
+	r.W.Mu.Unlock()
+	if prev != 0 {
+		r.feat("membership-with-previndex")
+	}
 	go func() {
 		var f raft.IndexFuture
 		switch kind {
@@ -701,6 +708,13 @@ func (r *Runner) judgeReturn(op *ClientOp) {
 		if op.err == nil {
 			r.feat("membership-ok")
 			w.O.CommitAck(op.inst, op.Index, op.Kind+" acknowledged on "+op.Srv)
+			// C07/R1: a change that names a prevIndex takes effect only on top of that very configuration
+			if p, ok := w.O.PrevCfgOfAppend(op.Srv, op.Index); ok && op.prevIndex != 0 && p != op.prevIndex {
+				w.ViolateLocked("C07", "R1", "C07/R1/stale-previndex-accepted", "%s #%d (%s) on %s named prevIndex %d and succeeded at index %d, but the latest configuration it replaced was at index %d", op.Kind, op.ID, op.Arg, op.Srv, op.prevIndex, op.Index, p)
+			}
+			if op.prevIndex != 0 {
+				r.feat("membership-with-previndex-ok")
+			}
 			if op.Index > r.maxAcked {
 				r.maxAcked = op.Index
 			}
